@@ -98,9 +98,11 @@ Proof.
       try (apply Z.leb_le in C); try (apply Z.leb_gt in C); try (apply Z.ltb_lt in D); try (apply Z.ltb_ge in D); lia.
   - (* text *) cbn [kind_scalar] in K. apply utf8_encode_exact. assumption.
   - (* time *) rewrite pack_int_exact. unfold int_range, in_z. change (2 ^ (8 * Z.of_nat 8 - 1)) with (2 ^ 63).
-    destruct (z <? DAY_NANOS) eqn:A; [|rewrite andb_false_r; reflexivity].
-    destruct (- 2 ^ 63 <=? z) eqn:B; cbn [andb]; [|reflexivity].
-    destruct (z <? 2 ^ 63) eqn:C; [reflexivity|]. apply Z.ltb_lt in A. apply Z.ltb_ge in C. unfold DAY_NANOS in A. change (2 ^ 63) with 9223372036854775808 in C. lia.
+    destruct ((0 <=? z) && (z <? DAY_NANOS)) eqn:A; [|reflexivity].
+    apply andb_true_iff in A. destruct A as [A0 A]. apply Z.leb_le in A0. apply Z.ltb_lt in A.
+    unfold DAY_NANOS in A. assert (H63 : 2 ^ 63 = 9223372036854775808) by reflexivity.
+    destruct (- 2 ^ 63 <=? z) eqn:B; [|apply Z.leb_gt in B; lia].
+    destruct (z <? 2 ^ 63) eqn:C; [reflexivity|]. apply Z.ltb_ge in C. lia.
 Qed.
 
 (* ------------------------------------------------------------------ null elements *)
